@@ -208,6 +208,14 @@ func (e *Engine) addObl(st *State, name, kind string, tags []string, goal *Term,
 	}
 	o := &Obligation{Name: name, Kind: kind, Tags: tags, Goal: goal, Desc: desc, Pos: pos, Path: e.pathCount}
 	o.Hyps = append([]*Term(nil), st.pc...)
+	if os.Getenv("TQV_DEBUG") == "assume" && strings.Contains(name, "safe.nil#1") {
+		fmt.Fprintf(os.Stderr, "OBL %s goal=%s npc=%d\n", name, goal, len(st.pc))
+		for i, h := range st.pc {
+			if i < 6 {
+				fmt.Fprintf(os.Stderr, "   pc[%d]=%s\n", i, h)
+			}
+		}
+	}
 	e.obls = append(e.obls, o)
 }
 
@@ -671,6 +679,7 @@ func (e *Engine) step(fr *Frame, st *State, ins ssa.Instruction) []fork {
 			cur, _ = e.ghostInit(st, "sends").(*Term)
 		}
 		st.ghost["sends"] = Add(cur, Num(1))
+		st.ghost["lastSent"] = e.val(fr, st, x.X) // value of the most recent channel send
 	case *ssa.Select:
 		// nondeterministic choice among states (and default when non-blocking)
 		tt := x.Type().(*types.Tuple)
